@@ -131,7 +131,7 @@ def shownOf (sd : SD) (w : Win) (ps : List PTok) : Option (List (Nat × Nat) × 
   let cs := posCalls ps
   let cands : List Int := ps.flatMap fun
     | .add p => [p]
-    | .addRange s e => if e - s > 5000 then [] else (List.range (e - max s 0).toNat).map fun (i : Nat) => max s 0 + (i : Int)
+    | .addRange s e => if e - max s 0 > 5000 then [] else (List.range (e - max s 0).toNat).map fun (i : Nat) => max s 0 + (i : Int)
   if ps.any (fun | .addRange s e => decide (e - max s 0 > 5000) | _ => false) then none else
   let pts := (cands.filter fun x => memCallsB cs x).map Int.toNat
   let pts := pts.eraseDups.mergeSort
